@@ -78,10 +78,10 @@ fn ask_shortfall(pool: &PoolInfo, before: &[u128], after: &[u128]) -> Option<(Bi
         let value_two_offer_units = if y > y2 { &y - &y2 } else { BigUint::from(0u32) };
         let aj = &a[j] * &r;
         let short = if y > aj { &y - &aj } else { BigUint::from(0u32) };
-        // what an error of two smallest units in the contract's D (one-unit stopping rule, S11)
+        // what an error of four smallest units in the contract's D (one-unit stopping rule, S11)
         // does to the ask balance: below one unit on ordinary pools, ~10 per unit of D on
         // low-amplification pools at the edge of the 1000:1 range
-        let two = &r * 2u32;
+        let two = &r * 4u32;
         let d_lo = if d0 > two { &d0 - &two } else { BigUint::from(0u32) };
         let y_lo = st.y_scaled(&others(&BigUint::from(0u32)), &d_lo)?;
         let by_d = if y > y_lo { &y - &y_lo } else { BigUint::from(0u32) };
